@@ -188,6 +188,9 @@ def _nan_grouped_op(group_idx, array, func, fillna, *args, **kwargs):
     if fillna in (np.inf, -np.inf):
         allnangroups = result == fillna
         if allnangroups.any():
+            # +-inf is also a legitimate extreme: only groups without a valid member are all-NaN
+            nvalid = nanlen(group_idx, array, *args, **{**kwargs, "fill_value": 0, "dtype": np.intp})
+            allnangroups &= nvalid == 0
             result[allnangroups] = kwargs["fill_value"]
     return result
 
